@@ -25,7 +25,7 @@ type BodyCase struct {
 	Var  string `json:"var"`
 }
 
-const bodyRule = "bodies: 41 body templates (32 native, 9 JSON) (attributes, static blocks with and without labels, dynamic blocks whose for_each / labels / content / iterator use the marked variable, static and dynamic blocks nested in dynamic content) x 5 marked variables x every hcldec block spec kind (Attr, Block, BlockList, BlockSet, BlockTuple, BlockMap, BlockObject, BlockAttrs; nested block specs one level down) x all pairs of contents incl. unknown; decoded with dynblock.Expand + hcldec.Decode, and in two steps (hcldec.PartialDecode of an unrelated attribute, then Decode of the remaining body); contents include typed nulls (DefaultSpec)"
+const bodyRule = "bodies: 51 body templates (38 native, 13 JSON; 10 of them put the marked value inside a constructor decoded against 8 typed attribute specs whose conversion changes the structure: object->map, tuple->set/list, nested) (attributes, static blocks with and without labels, dynamic blocks whose for_each / labels / content / iterator use the marked variable, static and dynamic blocks nested in dynamic content) x 5 marked variables x every hcldec block spec kind (Attr, Block, BlockList, BlockSet, BlockTuple, BlockMap, BlockObject, BlockAttrs; nested block specs one level down) x all pairs of contents incl. unknown; decoded with dynblock.Expand + hcldec.Decode, and in two steps (hcldec.PartialDecode of an unrelated attribute, then Decode of the remaining body); contents include typed nulls (DefaultSpec)"
 
 var attrA = &hcldec.AttrSpec{Name: "a", Type: cty.DynamicPseudoType}
 
@@ -43,6 +43,15 @@ func nestedSpecs() map[string]hcldec.Spec {
 		"attrs":   hcldec.ObjectSpec{"b": &hcldec.BlockAttrsSpec{TypeName: "b", ElementType: cty.String}},
 		"default": hcldec.ObjectSpec{"a": &hcldec.DefaultSpec{Primary: &hcldec.AttrSpec{Name: "a", Type: cty.String}, Default: &hcldec.LiteralSpec{Value: cty.StringVal("dflt")}}},
 		"label":   hcldec.ObjectSpec{"b": &hcldec.BlockListSpec{TypeName: "b", Nested: hcldec.ObjectSpec{"a": attrA, "k": &hcldec.BlockLabelSpec{Index: 0, Name: "k"}}}},
+	}
+	// typed attributes whose conversion from the written constructor changes the structure
+	// (object -> map, tuple -> set / list, nested); paired only with the "typed" templates
+	for name, ty := range map[string]cty.Type{
+		"typed-map": cty.Map(cty.String), "typed-set": cty.Set(cty.String), "typed-list": cty.List(cty.String),
+		"typed-listmap": cty.List(cty.Map(cty.String)), "typed-maplist": cty.Map(cty.List(cty.String)), "typed-mapset": cty.Map(cty.Set(cty.String)),
+		"typed-obj": cty.Object(map[string]cty.Type{"k": cty.String}), "typed-setobj": cty.Set(cty.Object(map[string]cty.Type{"k": cty.String})),
+	} {
+		out[name] = hcldec.ObjectSpec{"a": &hcldec.AttrSpec{Name: "a", Type: ty}}
 	}
 	// b blocks containing nested c blocks, c decoded with each block spec kind
 	cInner := hcldec.ObjectSpec{"a": attrA}
@@ -70,9 +79,21 @@ type tmpl struct {
 	labels bool   // blocks carry one label
 	nested bool   // b contains c blocks
 	json   bool   // JSON syntax
+	typed  bool   // pairs with the typed-* specs only
 }
 
 var templates = []tmpl{
+	// the marked value nested inside a constructor that is converted to the attribute's declared type
+	{text: "a = { k = X }\n", typed: true},
+	{text: "a = [X]\n", typed: true},
+	{text: "a = [X, \"c\"]\n", typed: true},
+	{text: "a = [{ k = X }]\n", typed: true},
+	{text: "a = { k = [X] }\n", typed: true},
+	{text: "a = { k = X, j = \"c\" }\n", typed: true},
+	{text: `{"a": {"k": "${X}"}}`, json: true, typed: true},
+	{text: `{"a": ["${X}"]}`, json: true, typed: true},
+	{text: `{"a": [{"k": "${X}"}]}`, json: true, typed: true},
+	{text: `{"a": {"k": ["${X}"]}}`, json: true, typed: true},
 	{text: "a = X\n"},
 	{text: "a = \"p-${X}\"\n"},
 	{text: "a = [X, 1]\n"},
@@ -143,6 +164,9 @@ func genBodies(tier string, emit func(engine.Case) bool) {
 		for _, v := range bodyVars {
 			text := strings.ReplaceAll(t.text, "X", v)
 			for _, sn := range specNames {
+				if strings.HasPrefix(sn, "typed-") != t.typed {
+					continue
+				}
 				isNested := strings.Contains(sn, "/")
 				if isNested != t.nested {
 					continue
